@@ -73,7 +73,17 @@ impl<F: Float> Transformer<Array2<F>, Array2<F>> for NormScaler {
 
         let norms = match &self.norm {
             Norms::L1 => x.map_axis(Axis(1), |row| F::cast(row.norm_l1())),
-            Norms::L2 => x.map_axis(Axis(1), |row| F::cast(row.norm_l2())),
+            Norms::L2 => x.map_axis(Axis(1), |row| {
+                // the squares of very large (small) elements overflow (underflow): take the norm of
+                // the row scaled by its largest magnitude
+                let max = F::cast(row.norm_max());
+                if max > F::zero() && max.is_finite() {
+                    let scaled = row.mapv(|el| el / <F::Lapack as Float>::cast(max));
+                    max * F::cast(scaled.norm_l2())
+                } else {
+                    max
+                }
+            }),
             Norms::Max => x.map_axis(Axis(1), |row| F::cast(row.norm_max())),
         };
 
